@@ -272,6 +272,7 @@ package kafka
 //@ func (*Writer).enter
 //@   option noframe
 //@   modifies region(Writer.closed)
+//@   ensures result ==> true
 //@ func (*Writer).leave
 //@   trusted WaitGroup bookkeeping
 //@ func (*Writer).balancer
@@ -299,6 +300,7 @@ package kafka
 //@   guards closed, writers
 //@   invariant forall kid ref :: inmap(w.writers, kid) ==> mapat(w.writers, kid) != nil && mapat(w.writers, kid).w == w
 //@   invariant w.batchSize() <= 0x7fffffff
+//@   invariant w.closed ==> len(w.writers) == 0
 
 //@ func newBatchQueue
 //@   requires 0 <= initialSize && initialSize <= 0x10000
@@ -472,6 +474,7 @@ package kafka
 //@   ensures result1 != nil ==> result0 == nil
 
 //@ property C09 C15
+
 
 // $left: the member id the group currently holds has been given up (LeaveGroup sent) or there is none.
 //@ func (*ConsumerGroup).leaveGroup
